@@ -56,4 +56,4 @@ def replay(rep, saved):
         if rej:
             rep.add_violation(saved, "recorded test trace rejected by CropTrace.tla at event %d" % at.get(1, 0))
         return
-    crop.replay_saved(rep, saved)
+    crop.replay_saved(rep, saved, claims=lambda tag: tag.startswith(CLAIMS_PREFIX))
